@@ -2,8 +2,14 @@
 (* Ground truth of the collected statistics (C14), from the headers of the input. *)
 EXTENDS Rdh, FiniteSets
 
-\* pk: sequence of 64-byte headers in file order; flt: 0 = none, else link id + 1
-Matches(r, flt) == flt = 0 \/ LinkId(r) = flt - 1
+\* pk: sequence of 64-byte headers in file order
+\* flt: a record [k, v]: k = "none" | "link" (v = link id: --filter-link) | "fee" (v = FEE id: --filter-fee)
+\*      | "stave" (v = <<layer, stave>>: --filter-its-stave L<layer>_<stave>)
+NoFilter == [k |-> "none", v |-> 0]
+Matches(r, flt) == CASE flt.k = "none" -> TRUE
+                     [] flt.k = "link" -> LinkId(r) = flt.v
+                     [] flt.k = "fee" -> FeeId(r) = flt.v
+                     [] flt.k = "stave" -> Layer(FeeId(r)) = flt.v[1] % 8 /\ Stave(FeeId(r)) = flt.v[2] % 64       \* the option's numbers are masked to 3 and 6 bits (words/its.rs)
 Analysed(pk, flt) == SelectSeq(pk, LAMBDA r : Matches(r, flt))
 RECURSIVE SumPay(_, _)
 SumPay(s, i) == IF i > Len(s) THEN 0 ELSE (MemSize(s[i]) - 64) + SumPay(s, i + 1)
@@ -18,7 +24,7 @@ TrigBit(r, n) == BitOf(r, 256 + n) = 1                     \* trigger type start
 Truth(pk, flt, analysing) ==
    LET an == IF analysing THEN Analysed(pk, flt) ELSE << >> IN
    [ rdhs_seen |-> Len(pk),
-     rdhs_filtered |-> IF flt = 0 THEN 0 ELSE Len(Analysed(pk, flt)),
+     rdhs_filtered |-> IF flt.k = "none" THEN 0 ELSE Len(Analysed(pk, flt)),
      payload_size |-> SumPay(Analysed(pk, flt), 1),
      links |-> SortSet({LinkId(pk[i]) : i \in 1..Len(pk)}),
      fee_id |-> Uniq(Map(pk, FeeId), 1, << >>),
